@@ -81,8 +81,13 @@ class HookSet:
 
     def method(self, cls, name, post=None, pre=None, on_exc=None, label=None):
         """Hook cls.name (instance method, staticmethod or classmethod)."""
-        raw = inspect.getattr_static(cls, name)
         label = label or f"{cls.__name__}.{name}"
+        try:
+            raw = inspect.getattr_static(cls, name)
+        except AttributeError:
+            if self._private_missing(label, name):
+                return label
+            raise
         if isinstance(raw, staticmethod):
             new = staticmethod(self._wrap(label, raw.__func__, pre, post, on_exc))
         elif isinstance(raw, classmethod):
@@ -99,8 +104,13 @@ class HookSet:
     def function(self, module, name, post=None, pre=None, on_exc=None, label=None):
         """Hook module.name and every quara module namespace that holds the
         same function object (quara uses `from m import f` heavily)."""
-        orig = getattr(module, name)
         label = label or f"{module.__name__.split('.')[-1]}.{name}"
+        try:
+            orig = getattr(module, name)
+        except AttributeError:
+            if self._private_missing(label, name):
+                return label
+            raise
         new = self._wrap(label, orig, pre, post, on_exc)
         for mname, mod in list(sys.modules.items()):
             if mod is None or not (mname == "quara" or mname.startswith("quara.")):
@@ -113,6 +123,17 @@ class HookSet:
                     setattr(mod, k, new)
                     self._undo.append((mod, k, orig))
         return label
+
+    def _private_missing(self, label, name):
+        """a private helper (single leading underscore) that no longer exists was renamed or inlined by a refactoring:
+        the hook is skipped with a note (its oracles then observe nothing; an oracle listed in REQUIRED_ORACLES makes the
+        run inconclusive, the others are optional observation points)"""
+        if not (name.startswith("_") and not name.startswith("__")):
+            return False
+        self.counts.setdefault(label, 0)
+        if self.ctx is not None:
+            self.ctx.note(f"hook target {label} does not exist (private helper renamed or inlined?): hook skipped")
+        return True
 
     def uninstall(self):
         for owner, name, raw in reversed(self._undo):
